@@ -35,7 +35,8 @@ pub fn judge(rep: &mut Report, r: &mut Rng, dir: &std::path::Path, p: &Project, 
     if has_alias { args.extend([if long { "--alias" } else { "-l" }, "a.alias"]); }
     let ran = run_asca(dir, &args);
     if ran.timed_out { rep.obs("watchdog_inconclusive", 1); return }
-    if ran.code != Some(0) { fail(rep, "run:exit-status", p, &files, json!({"code": ran.code, "stderr": ran.stderr, "stdout": ran.stdout})); return }
+    // (what the exit status is when the rules or words are in error is not part of the property; a crash is)
+    if ran.code != Some(0) && (expected.is_ok() || ran.code.map(|c| c > 2).unwrap_or(true)) { fail(rep, "run:exit-status", p, &files, json!({"code": ran.code, "stderr": ran.stderr, "stdout": ran.stdout})); return }
     match &expected {
         Ok(exp) => {
             let got = std::fs::read_to_string(&out_path);
